@@ -743,7 +743,8 @@ class PixelAlgorithms(AccessorBase):
             output_core_dims=[["time"]],
             keep_attrs=True,
             dask="parallelized",
-            dask_gufunc_kwargs={"meta": self._obj.data},
+            # mean_grp returns float32 whatever the input dtype
+            dask_gufunc_kwargs={"meta": self._obj.data.astype("float32")},
         )
 
 
